@@ -103,13 +103,20 @@ def implied(node, pm, root=None):
     return out
 
 
-def spell_constants(project, func, node, tuples=True):
+def spell_constants(project, func, node, tuples=True, copy_node=True):
     """module-level names bound once to a literal (number, string; tuple of those when `tuples`) are spelled out, so that naming a
     constant changes nothing for a shape rule.  Returns a rewritten copy."""
-    def lit(v):
-        if isinstance(v, ast.Constant) and isinstance(v.value, (int, float, str)) and not isinstance(v.value, bool):
-            return True
-        return tuples and isinstance(v, ast.Tuple) and all(lit(x) for x in v.elts)
+    def scalar(v):
+        return isinstance(v, (int, float, str)) and not isinstance(v, bool)
+
+    def as_node(v):
+        if scalar(v):
+            return ast.Constant(value=v)
+        if tuples and isinstance(v, tuple) and all(scalar(x) or isinstance(x, tuple) for x in v):
+            elts = [as_node(x) for x in v]
+            if all(e is not None for e in elts):
+                return ast.Tuple(elts=elts, ctx=ast.Load())
+        return None
 
     class S(ast.NodeTransformer):
         def visit_Name(self, n):
@@ -119,10 +126,13 @@ def spell_constants(project, func, node, tuples=True):
             if ent is None or ent.kind != 'const':
                 return n
             vals = ent.obj[2]
-            if len(vals) == 1 and vals[0] is not None and lit(vals[0]):
-                return ast.copy_location(copy.deepcopy(vals[0]), n)
+            if len(vals) == 1 and vals[0] is not None and isinstance(vals[0], (ast.Constant, ast.Name, ast.Tuple, ast.Attribute)):
+                # the value is a literal, or another constant that is one (DEFAULT_TYPE = TYPE_MARKUP)
+                new = as_node(project.try_const(ent.obj[0], vals[0]))
+                if new is not None:
+                    return ast.fix_missing_locations(ast.copy_location(new, n))
             return n
-    return S().visit(copy.deepcopy(node))
+    return S().visit(copy.deepcopy(node) if copy_node else node)
 
 
 def setattr_as_store(body):
